@@ -248,13 +248,22 @@ func (x *exec) staticCall(fr *frame, s *State, fn *ssa.Function, bind []*Val, ar
 			return x.inline(fr, s, fn, args, bind, pos)
 		}
 	}
-	if con := x.p.Contracts.ByKey[key]; con != nil && !x.wantInline(fr, fn) {
+	if con := x.p.Contracts.ByKey[key]; con != nil && !x.wantInline(fr, fn) && x.assumedInScope(con) {
 		return x.applyContract(fr, s, con, fn.Signature, args, pos, key)
 	}
 	if fn.Blocks != nil && x.wantInline(fr, fn) && !x.onStack(fn) {
 		return x.inline(fr, s, fn, args, bind, pos)
 	}
 	return x.unknownCall(fr, s, key, args, resT, pos)
+}
+
+// assumedInScope: an assumed contract that names properties (`props Cxx`) is an assumption made for those
+// properties only; proofs of functions that do not share one of them see the call without a contract.
+func (x *exec) assumedInScope(con *Contract) bool {
+	if !con.Assumed || len(con.Props) == 0 || x.con == nil {
+		return true
+	}
+	return sharesProp(con.Props, x.con.Props)
 }
 
 func (x *exec) onStack(fn *ssa.Function) bool {
@@ -890,6 +899,7 @@ func (x *exec) model(fr *frame, s *State, key string, args []*Val, resT types.Ty
 		// Modelled as: the elements of that backing store become unknown, nothing else changes.
 		if len(args) == 2 && args[0].Boxed != nil && isSliceType(args[0].Boxed.Typ) {
 			sl := args[0].Boxed.Typ.Underlying().(*types.Slice)
+			x.comparatorObligs(fr, s, args[0].Boxed, args[1], pos)
 			name, sortN := x.elemArr(sl.Elem())
 			h := x.h.get(s, name, sortN)
 			fresh := x.c.FreshConst("sorted", fmt.Sprintf("(Array %s %s)", x.c.I(), x.c.SortOf(sl.Elem())))
@@ -899,4 +909,63 @@ func (x *exec) model(fr *frame, s *State, key string, args []*Val, resT types.Ty
 		}
 	}
 	return nil, false
+}
+
+// comparatorObligs: `closure k: comparator [Cxx] name: P` on the function literal handed to sort.Slice. The
+// literal is executed twice from the state of the call, on (i, j) and on (j, i), for arbitrary distinct
+// in-range indexes; P may mention the literal's parameters, `result` (= less(i, j)) and `swapped`
+// (= less(j, i)), and the enclosing function's locals.
+func (x *exec) comparatorObligs(fr *frame, s *State, slice, less *Val, pos token.Pos) {
+	if less == nil || less.Clo == nil || x.dry != 0 {
+		return
+	}
+	fn := less.Clo.Fn
+	pc := x.closureContract(fr, fn)
+	if pc == nil || len(pc.Comparator) == 0 || len(fn.Params) != 2 {
+		return
+	}
+	st := s.clone()
+	it := types.Typ[types.Int]
+	i := x.freshVal("cmp.i", it, st)
+	j := x.freshVal("cmp.j", it, st)
+	ln := App("s-len", x.term(slice))
+	z := x.c.ILit(0)
+	x.assume(st, And(x.c.ICmp("<=", z, x.term(i)), x.c.ICmp("<", x.term(i), ln), x.c.ICmp("<=", z, x.term(j)), x.c.ICmp("<", x.term(j), ln), Not(Eq(x.term(i), x.term(j)))))
+	// the literal's own `ensures` clauses are not re-checked here
+	saved := pc.Ensures
+	pc.Ensures = nil
+	r1 := x.inline(fr, st, fn, []*Val{i, j}, less.Clo.Bind, pos)
+	r2 := x.inline(fr, st, fn, []*Val{j, i}, less.Clo.Bind, pos)
+	pc.Ensures = saved
+	env := x.frameEnv(fr, st, pos)
+	env.vars[fn.Params[0].Name()] = i
+	env.vars[fn.Params[1].Name()] = j
+	env.vars["result"] = r1
+	env.vars["swapped"] = r2
+	if x.con != nil {
+		pnames := x.con.Params
+		if x.con.Recv != "" {
+			pnames = append([]string{x.con.Recv}, pnames...)
+		}
+		for f := fr; f != nil; f = f.parent {
+			if f.top {
+				for k, n := range pnames {
+					if _, taken := env.vars[n]; !taken && k < len(f.params) && env.cell(n) == nil {
+						env.vars[n] = f.params[k]
+					}
+				}
+			}
+		}
+	}
+	for k, e := range pc.Comparator {
+		if x.cmpSeen == nil {
+			x.cmpSeen = map[*Clause]bool{}
+		}
+		x.cmpSeen[e] = true
+		label := e.Label
+		if label == "" {
+			label = fmt.Sprint(k + 1)
+		}
+		x.oblig(fr, st.clone(), fmt.Sprintf("closure%d.comparator", closureOrdinal(fn)), label, pos, x.evalBool(e.E, env), e.Props)
+	}
 }
